@@ -1749,6 +1749,19 @@ class NodeRequire:
         self.symbols = symbols
         self.pos = pos
 
+    def readModuleSource(self, filepath):
+        # a module file that cannot be read (a directory, no permission,
+        # not UTF-8) is a failed require, not a host exception
+        try:
+            with open(filepath, encoding="utf-8") as infile:
+                return infile.read()
+        except (OSError, UnicodeError) as e:
+            raise CklRuntimeError(
+                ValueString("ERROR"),
+                f"Cannot read module file {os.path.basename(filepath)}: "
+                f"{type(e).__name__}",
+                self.pos)
+
     def evaluate(self, environment):
         modules = environment.getModules()
         # resolve module file, identifier and name
@@ -1830,8 +1843,7 @@ class NodeRequire:
                     modulesrc = None
                     filepath = os.path.join(modulepath, filename)
                     if os.path.exists(filepath):
-                        with open(filepath, encoding="utf-8") as infile:
-                            modulesrc = infile.read()
+                        modulesrc = self.readModuleSource(filepath)
                     elif environment.isDefined("checkerlang_module_path"):
                         for modulepath in environment.get(
                                 "checkerlang_module_path",
@@ -1839,9 +1851,8 @@ class NodeRequire:
                         ).value:
                             filepath = os.path.join(modulepath.value, filename)
                             if os.path.exists(filepath):
-                                with open(filepath, encoding="utf-8") as infile:
-                                    modulesrc = infile.read()
-                                    break
+                                modulesrc = self.readModuleSource(filepath)
+                                break
                     if modulesrc is None:
                         raise CklRuntimeError(
                             ValueString("ERROR"),
